@@ -4,7 +4,8 @@ Decides (structure only):
  A1 the library (Linter._lint_path) and the CLI (execute_linting_on_paths) route each target kind (file, directory)
     to orchestrator methods with the same finalize behaviour;
  A2 one invocation finalizes once over all of its targets (no per-group finalize that splits cross-file evidence);
- A3 both entry points build the orchestrator from the same config discovery and apply a rule-id filter.
+ A3 both entry points build the orchestrator from the same config discovery and apply a rule-id filter;
+ A4 per-file rules do not memoise their configuration across the files of one run.
 Not decided: union laws on arbitrary trees.
 """
 
@@ -78,7 +79,24 @@ def check(run, ctx):
     fv = repo.func("src.api.Linter._filter_violations")
     ok = any(isinstance(n, ast.Compare) and isinstance(n.ops[0], ast.In) and ast.unparse(n.left).endswith("rule_id") for n in ast.walk(fv.node))
     (run.ok(A3, "library filter", "v.rule_id in rules") if ok else run.finding(A3, "Linter._filter_violations", "filter", "the library rule filter no longer selects by rule id", fv.loc))
+    oi = repo.func("src.orchestrator.core.Orchestrator.__init__")
+    tests = [n.test for n in ast.walk(oi.node) if isinstance(n, ast.If) and any(isinstance(x, ast.Name) and x.id == "config" for x in ast.walk(n.test))]
+    run.require(bool(tests), "Orchestrator.__init__: no test on the config parameter")
+    t = tests[0]
+    explicit = isinstance(t, ast.Compare) and len(t.ops) == 1 and isinstance(t.ops[0], (ast.IsNot, ast.Is)) and isinstance(t.comparators[0], ast.Constant) and t.comparators[0].value is None
+    (run.ok(A3, "Orchestrator config provided?", norm(t)) if explicit else run.finding(A3, "Orchestrator.__init__", f"truthiness:{norm(t)}", f"`if {norm(t)}` treats an explicitly passed empty configuration as absent and auto-discovers <project_root>/.thailint.yaml instead: the library (which passes config=...) and the CLI (which assigns orchestrator.config afterwards) then lint with different settings, and so do --parallel workers", oi.loc))
     cmds = clifacts.commands(repo)
     nofilter = sorted({c.name for c in cmds if not c.preds})
     (run.ok(A3, "CLI filters", f"{len(cmds)} commands filter by rule id") if not nofilter else run.finding(A3, "cli", f"unfiltered:{nofilter}", f"commands {nofilter} do not filter by rule id", "src/cli/linters"))
+    from ..linters import Linters
+    from . import shared
+
+    A4 = run.rule("A4", "per-file rules compute their configuration per file: no rule memoises the parsed config across the files of a run", floor=15,
+                  decides="a directory run equals the union of per-file runs, and a file list does not depend on argument order")
+    for rec in shared.config_memoisation(ctx, Linters(ctx)):
+        sym = f"{rec['rule']}.{rec['name']}"
+        if rec["bad"]:
+            run.finding(A4, sym, f"memoised:{rec['store']}", f"{rec['func'].qual} keeps the parsed configuration of the first file ({rec['store']}): with per-language overrides a mixed-language directory run no longer equals the union of the per-file runs and depends on traversal order", rec["func"].loc)
+        else:
+            run.ok(A4, sym, "configuration is recomputed for every file")
     return __doc__
